@@ -3,6 +3,16 @@ use serde_json::Value;
 
 pub mod c04;
 pub mod c05;
+pub mod c06;
+pub mod c07;
+pub mod fri_common;
+pub mod c08;
+#[cfg(feature = "full")]
+pub mod c08_full;
+pub mod c09;
+pub mod c10;
+pub mod c12;
+pub mod c15;
 
 pub struct Prop {
     pub id: &'static str,
@@ -16,6 +26,13 @@ pub fn registry() -> Vec<Prop> {
     let mut v = vec![
         Prop { id: "C04", run: c04::run, replay: c04::replay, rule: c04::RULE, full: false },
         Prop { id: "C05", run: c05::run, replay: c05::replay, rule: c05::RULE, full: false },
+        Prop { id: "C06", run: c06::run, replay: c06::replay, rule: c06::RULE, full: false },
+        Prop { id: "C07", run: c07::run, replay: c07::replay, rule: c07::RULE, full: false },
+        Prop { id: "C08", run: c08::run, replay: c08::replay, rule: c08::RULE, full: true },
+        Prop { id: "C09", run: c09::run, replay: c09::replay, rule: c09::RULE, full: false },
+        Prop { id: "C10", run: c10::run, replay: c10::replay, rule: c10::RULE, full: false },
+        Prop { id: "C12", run: c12::run, replay: c12::replay, rule: c12::RULE, full: false },
+        Prop { id: "C15", run: c15::run, replay: c15::replay, rule: c15::RULE, full: false },
     ];
     v.sort_by_key(|p| p.id);
     v
